@@ -204,6 +204,12 @@ REFUSED_ANYWHERE = [
     ['diff', {'content': b''}],
     ['diff', {'content': b'x\n', 'diff_type': 'patch'}],
     ['diff', {'content': b'x\n', 'line_endings': 'mac'}],
+    # refused only when the header is about to be written, after the
+    # content was prepared: nothing of it may stay behind
+    ['preamble', {'text': 'REFUSED\nTEXT', 'encoding': 'utf 8', 'indent': 3}],
+    ['preamble', {'text': 'REFUSED', 'encoding': 'utf:8'}],
+    ['meta', {'metadata': {'refused': 1}, 'encoding': 'latin 1'}],
+    ['diff', {'content': b'refused\n', 'encoding': 'utf 8'}],
 ]
 
 
